@@ -383,3 +383,30 @@ CHECKS["C16"] = {
                   "bound of input size and table size, logical steps within a linear bound. Thorough repeats the Ristretto workload under AddressSanitizer.",
     "level_note": "Held on the executed inputs. A clean sanitizer run is not memory safety; the library has no unsafe code of its own, the sanitizer leg covers the dependencies' unsafe reached from hostile input.",
 }
+
+CHECKS["C18"] = {
+    "title": "Proving and verifying are pure, repeatable and thread-safe",
+    "level": "exploration",
+    "technique": "runtime monitoring: history-independence oracle (probe results after random call histories vs a virgin process), concurrent stress with shared parameter objects against a sequential baseline with measured call overlap, racing first use of the cached generators in fresh processes; the concurrent legs repeated under ThreadSanitizer (thorough: also Miri with many seeds)",
+    "design_ref": "DESIGN.md section 4 C18",
+    "legs": [
+        {"name": "fm-history", "shards": 8},
+        {"name": "ris-history", "shards": 8},
+        {"name": "threads", "shards": 6},
+        {"name": "race", "shards": 8},
+        {"name": "threads-tsan", "leg": "threads", "build": "tsan", "shards": 4, "sanitizer": "tsan", "args": ["profile=tsan"]},
+        {"name": "race-tsan", "leg": "race", "build": "tsan", "shards": 4, "sanitizer": "tsan", "args": ["profile=tsan"]},
+    ],
+    "rule": "history cases: a random sequence of 3..12 calls (prove, verify, batches failing mid-way on an undecodable point / round mismatch / inconsistency / identity point / final check, decode, parameter construction, recovery) "
+            "followed by a fixed probe set whose digest (proof bytes, verdicts, masks, generator encodings) is compared with the digest from a virgin process, on the same thread and on a fresh thread; threads cases: one round of T in {2,4,8,16} threads "
+            "each running all jobs (prove, three verify modes, clone/drop parameters, tampered verify) over clones of one parameter object in its own random order with jitter; race cases: one fresh process with T in {2,3,6,8,12,16} threads making the first-ever "
+            "generator calls; non-trivial = results were compared (and for threads: overlapping call pairs were observed)",
+    "require": {"quick": {"histories": 80, "probe_comparisons": 160, "virgin_process_probes": 8, "concurrent_rounds": 10, "concurrent_results_compared": 1000, "overlapping_call_pairs": 1000, "fresh_processes": 70, "racing_first_calls": 400, "sanitizer_processes": 8},
+                "thorough": {"histories": 700, "probe_comparisons": 1400, "virgin_process_probes": 16, "concurrent_rounds": 70, "concurrent_results_compared": 15000, "overlapping_call_pairs": 10000, "fresh_processes": 2400, "racing_first_calls": 15000, "sanitizer_processes": 8}},
+    "deadline_s": {"quick": 1500, "thorough": 10000},
+    "assumptions": COMMON_ASSUMPTIONS + ["explores the schedules the OS scheduler, harness jitter and ThreadSanitizer produce, not all interleavings", "TSan only understands synchronisation it intercepts; std is rebuilt instrumented (-Zbuild-std) so no uninstrumented library is involved"],
+    "level_text": "Runs fixed probe calls after random call histories (including calls that fail half-way through a batch) and compares every result bit with a virgin process; runs T threads over clones of one parameter object "
+                  "(one shared Arc'd precomputation) against a sequential baseline and reports how many call pairs actually overlapped; races the first use of the once-initialised generator statics in fresh processes; repeats the concurrent legs under ThreadSanitizer, "
+                  "where any report is a violation.",
+    "level_note": "Held on the observed schedules only. Trusted: ThreadSanitizer, harness baseline.",
+}
